@@ -110,3 +110,14 @@ func init() {
 		return Tuple{concatStr(lit("z"), ghostStr("b58", strOfSlice(in, args[1].(*Slice)))), Iface{}}, true
 	})
 }
+
+func init() {
+	// reflect.TypeOf is only met in error texts (go-jose: "unknown key type '%s'"); nil stays nil, anything else is
+	// an opaque type description
+	reg("reflect.TypeOf", func(in *Interp, fn *ssa.Function, args []value) (value, bool) {
+		if i, ok := args[0].(Iface); ok && i.T == nil {
+			return Iface{}, true
+		}
+		return Iface{T: types.Typ[types.String], V: lit("<type>")}, true
+	})
+}
